@@ -31,7 +31,7 @@ def showLevel : LevelOrder → String
   | .node p => "N:" ++ showPath p
   | .stop => "End"
 
-def showOutcome : Outcome AxErr Path → String
+def showAxOutcome : Outcome AxErr Path → String
   | .ok p => "ok " ++ showPath p
   | .err .notDocument => "err:NotDocument"
   | .err .noElementAtTopLevel => "err:NoElementAtTopLevel"
@@ -82,9 +82,9 @@ def axesEntry (t : Tree) (p : Path) (entry : String) : Option String :=
   | "edge_walk_next" => some (showEdges (edgeWalk (Edge.next t) (2 * t.size + 1) (.start p)))
   | "edge_walk_prev" => some (showEdges (edgeWalk (Edge.previous t) (2 * t.size + 1) (.stop p)))
   | "level_order" => some (String.intercalate " " ("l" :: (levelOrder t p).map showLevel))
-  | "root" => some (showOutcome (root p))
-  | "top_element" => some (showOutcome (topElement t p))
-  | "document_element" => some (showOutcome (documentElement t p))
+  | "root" => some (showAxOutcome (root p))
+  | "top_element" => some (showAxOutcome (topElement t p))
+  | "document_element" => some (showAxOutcome (documentElement t p))
   | "attribute_nodes" => some (showPaths (attributeNodes t p))
   | _ =>
     if entry.startsWith "axis_" then
